@@ -1743,7 +1743,7 @@ C15_SKIP = set()
 
 def alloc_names():
     c15, tab = c15_table()
-    return sorted(n for n, F in T.items() if F.alloc) + sorted("c15/" + n for n in tab if n not in C15_SKIP)
+    return sorted(n for n, F in T.items() if F.alloc) + sorted("c15/" + n for n in tab if n not in C15_SKIP and len(tab[n]) <= 3)     # entries with a preparation step (bake drivers) have their own table entries here
 
 
 def alloc_build(x, c):
